@@ -8,6 +8,7 @@ CONSTANTS
   Faults <- AllFaults
   MaxFaults = 1
   Stepped = TRUE
+  Dir = "fwd"
 CHECK_DEADLOCK FALSE
 INVARIANTS
   TypeOK
